@@ -127,11 +127,16 @@ def run(scenario, preemptions=None, choices=None, step_limit=60000,
                     elif kind == 'pause':
                         scheduler.sleep(op[1])
                     elif kind == 'stop_current':
+                        current = control.get_current()
+                        scheduler.record('stop-target', None if current is None
+                                         else current.name)
                         value = control.stop_current()
                     elif kind == 'stop_job':
                         value = control.stop_job(op[1])
                     elif kind == 'agent_stop':
                         current = control.get_current()
+                        scheduler.record('stop-target', None if current is None
+                                         else current.name)
                         if current is not None:
                             current.request_stop()
                     elif kind == 'stop_all':
